@@ -785,3 +785,28 @@ def cy_to_ast(repo, rel):
         for ch in ast.iter_child_nodes(n):
             ch.parent = n
     return m
+
+
+def cy_string_to_ast(repo, code, name='<skeleton>'):
+    """Parse Cython source held in a string (e.g. the skeleton of a template) and lower it."""
+    from Cython.Compiler.Scanning import StringSourceDescriptor, PyrexScanner
+    from Cython.Compiler import Parsing, Errors
+    from io import StringIO
+    ctx = _context(repo)
+    sd = StringSourceDescriptor(name, code)
+    scope = ctx.find_submodule('verif_skeleton_' + str(abs(hash(name)) % 100000))
+    scope.cpp = True
+    n0 = Errors.get_errors_count()
+    try:
+        s = PyrexScanner(StringIO(code), sd, source_encoding='utf-8', scope=scope, context=ctx)
+        tree = Parsing.p_module(s, 0, 'verif_skeleton')
+    except Exception as e:
+        raise FrontEndError('cython parse of %s failed: %r' % (name, e))
+    if Errors.get_errors_count() > n0:
+        raise FrontEndError('cython parse of %s reported errors' % name)
+    low = Lower(name)
+    m = low.module(tree)
+    for n in ast.walk(m):
+        for ch in ast.iter_child_nodes(n):
+            ch.parent = n
+    return m
